@@ -465,7 +465,8 @@ CHECKS["C04"] = dict(
 CHECKS["C20"] = dict(
     pkg="c20", level="exploration", race=True,
     props=[dict(name="TestPropConcurrent", quick=72, thorough=16 * 150, shards_quick=12, shards_thorough=16, shrinktime="10s",
-                timeout_quick=1800, timeout_thorough=14400)],
+                timeout_quick=1800, timeout_thorough=14400),
+           dict(name="TestEnumServerStop", rapid=False, quick=1, thorough=1)],
     rule="the whole harness and every simpleiot package are compiled with -race. Per case 4-10 workers, each with its own bus "
          "connection and a drawn program of 20-60 operations: node-point and edge-point writes to three shared nodes (one "
          "mirrored) with globally distinct generated timestamps, reads, admin.storeVerify, node creation, drawn Gosched / "
@@ -477,7 +478,10 @@ CHECKS["C20"] = dict(
          "writes (writes that were sent but not acknowledged because of the stop may or may not be there) and every stored "
          "hash equals the Merkle hash of the content; Run returns after Stop; the same file opens again and holds the same "
          "content; the race detector reports nothing (GORACE halt_on_error exits the binary with code 66; its report is the "
-         "replay artefact). Non-trivial = >= 4 workers and >= 2 identities written by >= 2 workers.",
+         "replay artefact). In addition the whole server (server.NewServer: bus, store, HTTP API, node manager, default "
+         "clients) is started on free ports, written and read by four workers and stopped in the middle: Server.Run must "
+         "return, the file must open again and hold every acknowledged write. Non-trivial = >= 4 workers and >= 2 identities "
+         "written by >= 2 workers.",
     assumptions=["interleavings are whatever the Go scheduler produces under the drawn perturbations; a failure of this check is not shrinkable",
                  "requests in flight when Stop is called may be answered with an error or dropped"],
     level_text="Generated concurrent workloads (rapid) under the race detector with per-worker and global consistency oracles; schedules "
